@@ -58,14 +58,14 @@ def gen_crate(dst, crate_path, oplist):
     with open(os.path.join(dst, ".cargo", "config.toml"), "w") as fh:
         fh.write("[net]\noffline = true\n")
     lib = ["#![allow(unused_imports, clippy::all)]",
-           "use crypto_bigint::{modular::{MontyForm, MontyParams}, BoxedUint, CheckedMul, I128, Limb, NonZero, Odd, U128, U192, U256, U64};",
+           "use crypto_bigint::{modular::{MontyForm, MontyParams}, BoxedUint, CheckedMul, Int, Uint, I128, Limb, NonZero, Odd, U128, U192, U256, U64};",
            "use crypto_bigint::subtle::{self, ConditionallySelectable, ConstantTimeEq, ConstantTimeGreater, ConstantTimeLess};", ""]
     for o in oplist:
         lib.append("#[unsafe(no_mangle)]\n#[inline(never)]\npub fn w_%s(%s) {\n    %s\n}\n" % (o["name"], rust_sig(o), o["body"]))
     with open(os.path.join(dst, "src", "lib.rs"), "w") as fh:
         fh.write("\n".join(lib))
     # native runner: ctw_run <op> ; stdin = one hex line per in-param (LE bytes) / decimal for scalars
-    mn = ["#![allow(unused_imports, unused_mut)]", "use std::io::BufRead;", "use crypto_bigint::{I128, Limb, U128, U192, U256, U64};",
+    mn = ["#![allow(unused_imports, unused_mut)]", "use std::io::BufRead;", "use crypto_bigint::{Int, Uint, I128, Limb, U128, U192, U256, U64};",
           "static mut MARK: u64 = 0;",
           "fn hex(s: &str) -> Vec<u8> { (0..s.len() / 2).map(|i| u8::from_str_radix(&s[2 * i..2 * i + 2], 16).unwrap()).collect() }",
           "fn out(b: &[u8]) { println!(\"{}\", b.iter().map(|x| format!(\"{:02x}\", x)).collect::<String>()); }",
@@ -178,12 +178,18 @@ def leak_text(mod, e):
     return loc, site
 
 
-def match_finding(kf, opname, kind, loc, site):
+def match_finding(kf, opname, kind, loc, site, vars=()):
     for f in kf:
         if not re.search(f["wrapper_re"], opname) or f["kind"] != kind:
             continue
-        if all(c in (loc + " " + site) for c in f["contains"]):
-            return f
+        if not all(c in (loc + " " + site) for c in f["contains"]):
+            continue
+        only = f.get("expr_params_only")
+        if only is not None:
+            params = {re.sub(r"_\d+$", "", v) for v in vars}
+            if not params or not params <= set(only):
+                continue
+        return f
     return None
 
 
@@ -197,7 +203,11 @@ def analyse(mod, o, pv, timeout_ms, kf=()):
 
     def on_leak(e):
         loc, site = leak_text(mod, e)
-        f = match_finding(kf, o["name"], e.kind, loc, site)
+        if o.get("profile") == "k8" and e.kind == "division-operand" and "(reciprocal)" in loc:
+            # narrowing artefact: the 8-bit build replaces the 64-bit reciprocal() table code by its
+            # defining division; the real code has no division there (assumption, listed in the evidence)
+            return True
+        f = match_finding(kf, o["name"], e.kind, loc, site, e.vars)
         if f is not None:
             hits.append((f, loc, site))
             if not f.get("continue"):
@@ -219,10 +229,7 @@ def analyse(mod, o, pv, timeout_ms, kf=()):
     except StopAtKnownLeak:
         res["verdict"] = "known-leak (execution stopped at the recorded leak; later leak points of this wrapper not examined)"
     except Unsupported as e:
-        if hits:
-            res["verdict"] = "known-leak (continuation past the recorded leak stopped: %s)" % str(e)[:120]
-        else:
-            res.update(verdict="inconclusive", why=str(e)[:300])
+        res.update(verdict="inconclusive", why=("after a recorded known leak: " if hits else "") + str(e)[:300])
     except RecursionError:
         res.update(verdict="inconclusive", why="recursion limit")
     except Exception as e:  # interpreter bug: never a pass
@@ -351,6 +358,56 @@ def replay(binp, o, pv, witness):
     return False, "identical instruction/address traces (%d events)" % len(t1)
 
 
+def run_ops(mod, binp, oplist, kf, timeout_ms, rng, results, violations, known_hits, inconclusive, tv):
+    for o in oplist:
+        for pv in pub_assignments(o):
+            res = analyse(mod, o, pv, timeout_ms, kf)
+            hits = res.pop("_hits")
+            for f, loc, site in hits:
+                known_hits.append((f, dict(res, location=loc)))
+            res["expect"] = o["expect"]
+            res["profile"] = o.get("profile", "k64")
+            heavy = re.search(r"inv_|gcd|pow|monty|sqrt", o["name"]) is not None
+            ok, info = validate_translator(mod, binp, o, pv, rng, n=1 if heavy else 2)
+            tv[1] += 1
+            res["translator_validated"] = bool(ok)
+            if ok:
+                tv[0] += 1
+            else:
+                res["translator_note"] = str(info)[:300]
+            results.append(res)
+            tag = "%s %s" % (o["name"], res["public"] or "")
+            if not res.get("translator_validated"):
+                inconclusive.append({"op": tag, "why": "translator validation failed: %s" % res.get("translator_note")})
+                log("INCONCLUSIVE %s translator validation failed: %s" % (tag, res.get("translator_note")))
+                continue
+            if res["verdict"].startswith("known-leak"):
+                continue
+            if res["verdict"] == "inconclusive":
+                inconclusive.append({"op": tag, "why": res["why"]})
+                log("INCONCLUSIVE %s: %s" % (tag, res["why"]))
+            elif res["verdict"] == "leak":
+                if o["expect"] == "vartime":
+                    res["class"] = "expected-vartime-witness"
+                    continue
+                ok, info = replay(binp, o, pv, res["witness"])
+                res["replay"] = {"reproduced": ok, "info": info}
+                rp = os.path.join(OUT, "replay", "C01", "%s.json" % o["name"])
+                with open(rp, "w") as fh:
+                    json.dump({"op": o["name"], "public": pv, "witness": res["witness"], "location": res["location"],
+                               "ir_site": res.get("ir_site"), "kind": res["kind"], "replay": res["replay"]}, fh, indent=1)
+                if ok:
+                    violations.append((o, res, rp))
+                    res["class"] = "violation"
+                else:
+                    inconclusive.append({"op": tag, "why": "IR-level leak not reproduced on machine code: %s" % info})
+                    log("INCONCLUSIVE %s leak at %s not reproduced natively: %s" % (tag, res["location"], info))
+            else:
+                if o["expect"] == "vartime":
+                    inconclusive.append({"op": tag, "why": "sanity witness did NOT leak (engine blind?)"})
+                    log("INCONCLUSIVE %s: documented-vartime witness was not reported as a leak" % tag)
+
+
 # ------------------------------------------------------------------ check
 def check(tier, seed):
     t0 = time.time()
@@ -363,72 +420,36 @@ def check(tier, seed):
     only = os.environ.get("CTSYM_ONLY")
     if only:
         oplist = [o for o in oplist if re.search(only, o["name"])]
-    top = derive.make_copy("C01-ct", [])
     results, violations, known_hits, inconclusive = [], [], [], []
-    tv_ok = tv_total = 0
-    try:
-        with open(logp, "w") as logf:
-            wdir = os.path.join(top, "ctw")
-            gen_crate(wdir, os.path.join(top, "crate"), oplist)
-            ll, binp, info = build(wdir, logf)
-            if ll is None:
-                log("INCONCLUSIVE wrapper crate does not build:\n" + info)
-                write_evidence(tier, seed, [], [], [], [{"op": "<build>", "why": info[-300:]}], 0, 0, time.time() - t0, "")
-                return 2
-            mod = Module(ll)
-            known = json.load(open(KNOWN)) if os.path.exists(KNOWN) else {"findings": []}
-            kf = [f for f in known.get("findings", []) if f.get("property") == "C01" and "wrapper_re" in f]
-            timeout_ms = 60000 if tier == "quick" else 600000
-            for o in oplist:
-                for pv in pub_assignments(o):
-                    res = analyse(mod, o, pv, timeout_ms, kf)
-                    hits = res.pop("_hits")
-                    for f, loc, site in hits:
-                        known_hits.append((f, dict(res, location=loc)))
-                    res["expect"] = o["expect"]
-                    # translator validation on this wrapper (concrete run vs native)
-                    if res["verdict"] != "inconclusive" or True:
-                        heavy = re.search(r"inv_|gcd|pow|monty|sqrt", o["name"]) is not None
-                        ok, info = validate_translator(mod, binp, o, pv, rng, n=1 if heavy else 2)
-                        tv_total += 1
-                        res["translator_validated"] = bool(ok)
-                        if ok:
-                            tv_ok += 1
-                        else:
-                            res["translator_note"] = str(info)[:300]
-                    results.append(res)
-                    tag = "%s %s" % (o["name"], res["public"] or "")
-                    if not res.get("translator_validated"):
-                        inconclusive.append({"op": tag, "why": "translator validation failed: %s" % res.get("translator_note")})
-                        log("INCONCLUSIVE %s translator validation failed: %s" % (tag, res.get("translator_note")))
-                        continue
-                    if res["verdict"].startswith("known-leak"):
-                        continue
-                    if res["verdict"] == "inconclusive":
-                        inconclusive.append({"op": tag, "why": res["why"]})
-                        log("INCONCLUSIVE %s: %s" % (tag, res["why"]))
-                    elif res["verdict"] == "leak":
-                        if o["expect"] == "vartime":
-                            res["class"] = "expected-vartime-witness"
-                            continue
-                        ok, info = replay(binp, o, pv, res["witness"])
-                        res["replay"] = {"reproduced": ok, "info": info}
-                        rp = os.path.join(OUT, "replay", "C01", "%s.json" % o["name"])
-                        with open(rp, "w") as fh:
-                            json.dump({"op": o["name"], "public": pv, "witness": res["witness"], "location": res["location"],
-                                       "ir_site": res.get("ir_site"), "kind": res["kind"], "replay": res["replay"]}, fh, indent=1)
-                        if ok:
-                            violations.append((o, res, rp))
-                            res["class"] = "violation"
-                        else:
-                            inconclusive.append({"op": tag, "why": "IR-level leak not reproduced on machine code: %s" % info})
-                            log("INCONCLUSIVE %s leak at %s not reproduced natively: %s" % (tag, res["location"], info))
-                    else:
-                        if o["expect"] == "vartime":
-                            inconclusive.append({"op": tag, "why": "sanity witness did NOT leak (engine blind?)"})
-                            log("INCONCLUSIVE %s: documented-vartime witness was not reported as a leak" % tag)
-    finally:
-        derive.remove(top)
+    tv = [0, 0]
+    info = ""
+    known = json.load(open(KNOWN)) if os.path.exists(KNOWN) else {"findings": []}
+    kf = [f for f in known.get("findings", []) if f.get("property") == "C01" and "wrapper_re" in f]
+    timeout_ms = 60000 if tier == "quick" else 600000
+    with open(logp, "w") as logf:
+        for profile in ("k64", "k8"):
+            plist = [o for o in oplist if o.get("profile", "k64") == profile]
+            if not plist:
+                continue
+            try:
+                top = derive.make_copy("C01-%s" % profile, [], narrow=(profile == "k8"))
+            except Exception as e:
+                inconclusive.append({"op": "<%s copy>" % profile, "why": "derive/narrow failed: %r" % (e,)})
+                log("INCONCLUSIVE %s derived copy failed: %r" % (profile, e))
+                continue
+            try:
+                wdir = os.path.join(top, "ctw")
+                gen_crate(wdir, os.path.join(top, "crate"), plist)
+                ll, binp, info = build(wdir, logf)
+                if ll is None:
+                    log("INCONCLUSIVE %s wrapper crate does not build:\n%s" % (profile, info))
+                    inconclusive.append({"op": "<%s build>" % profile, "why": info[-300:]})
+                    continue
+                mod = Module(ll)
+                run_ops(mod, binp, plist, kf, timeout_ms, rng, results, violations, known_hits, inconclusive, tv)
+            finally:
+                derive.remove(top)
+    tv_ok, tv_total = tv
     seen = set()
     for f, res in known_hits:
         k = (f["key"], res["op"])
